@@ -19,18 +19,21 @@ import (
 	"bytes"
 	"encoding/json"
 	"fmt"
+	"io"
 	"math/rand"
 	"os"
 	"os/exec"
 	"path/filepath"
 	"regexp"
 	"runtime"
+	"sort"
 	"strconv"
 	"strings"
 	"sync"
 	"sync/atomic"
 	"time"
 
+	kanzi "github.com/flanglet/kanzi-go/v2"
 	kio "github.com/flanglet/kanzi-go/v2/io"
 )
 
@@ -61,6 +64,59 @@ type racePipe struct {
 	comp, back []byte
 	encErr     string
 	decErr     string
+	info       string // hash of the BLOCK_INFO events (offsets) seen by a listener with verbosity 5
+}
+
+// raceListener records the BLOCK_INFO messages (they carry the bit offset of every block in the
+// shared bitstream): listeners run on the task goroutines, and the code that feeds them is part of
+// "state shared between the tasks of one instance".
+type raceListener struct {
+	mu   sync.Mutex
+	msgs []string
+}
+
+func (l *raceListener) ProcessEvent(e *kanzi.Event) {
+	if e.Type() == kanzi.EVT_BLOCK_INFO {
+		l.mu.Lock()
+		l.msgs = append(l.msgs, e.String())
+		l.mu.Unlock()
+	}
+}
+
+// raceListenRoundTrip: same stream, through NewWriterWithCtx / NewReaderWithCtx with a listener and
+// verbosity 5 on both sides; returns a digest of the sorted BLOCK_INFO messages
+func raceListenRoundTrip(p *racePipe) string {
+	var sink memSink
+	wctx := map[string]any{"transform": p.cfg.tf, "entropy": p.cfg.en, "blockSize": p.bs, "jobs": p.jobs, "checksum": p.ck, "verbosity": uint(5)}
+	w, err := kio.NewWriterWithCtx(&sink, wctx)
+	if err != nil {
+		return "wctor:" + err.Error()
+	}
+	wl := &raceListener{}
+	w.AddListener(wl)
+	if _, err := w.Write(p.data); err != nil {
+		return "write:" + err.Error()
+	}
+	if err := w.Close(); err != nil {
+		return "close:" + err.Error()
+	}
+	rctx := map[string]any{"jobs": p.jobs, "verbosity": uint(5)}
+	r, err := kio.NewReaderWithCtx(rdCloser{bytes.NewReader(sink.Bytes())}, rctx)
+	if err != nil {
+		return "rctor:" + err.Error()
+	}
+	rl := &raceListener{}
+	r.AddListener(rl)
+	back, err := io.ReadAll(r)
+	if err != nil {
+		return "read:" + err.Error()
+	}
+	if !bytes.Equal(back, p.data) {
+		return "mismatch"
+	}
+	all := append(append([]string{}, wl.msgs...), rl.msgs...)
+	sort.Strings(all)
+	return fmt.Sprintf("%d:%s", len(all), cliHash([]byte(strings.Join(all, "\n"))))
 }
 
 func (p *racePipe) run() {
@@ -69,11 +125,12 @@ func (p *racePipe) run() {
 	p.back, p.decErr = nil, ""
 	if p.encErr == "" {
 		p.back, p.decErr = g5Cur.decode(p.comp, c, p.jobs, int64(len(p.data)))
+		p.info = raceListenRoundTrip(p)
 	}
 }
 
 func (p *racePipe) outcome() string {
-	return fmt.Sprintf("enc=%q comp=%d:%s dec=%q back=%d:%s", p.encErr, len(p.comp), cliHash(p.comp), p.decErr, len(p.back), cliHash(p.back))
+	return fmt.Sprintf("enc=%q comp=%d:%s dec=%q back=%d:%s info=%s", p.encErr, len(p.comp), cliHash(p.comp), p.decErr, len(p.back), cliHash(p.back), p.info)
 }
 
 var raceHookCtr, raceHookSeed uint64
